@@ -19,9 +19,8 @@ Print Assumptions C11_member.
 Theorem C11_direct_twin : forall v its a b id gen, spells v its ->
   parse_u64 a = Ok id -> parse_u64 b = Ok gen ->
   forall R allow s k s_end,
-    True -> vdepth v <= MAX_DEPTH ->
+    vdepth v <= MAX_DEPTH ->
     Lexes s (IWord a :: IWord b :: IWord kw_obj :: its ++ IWord kw_endobj :: k) s_end ->
-    (forall s3, Lexes s3 (its ++ IWord kw_endobj :: k) s_end -> (length its <= fuel_for s3)%nat) ->
     exists s1, parse_indirect_object R allow F_ANY s = Ok (id, gen, v, s1) /\ Lexes s1 k s_end.
 Proof. exact parse_indirect_spelled. Qed.
 Print Assumptions C11_direct_twin.
@@ -54,11 +53,9 @@ Theorem C11_stream_length : forall d1 body1 d2 body2 a b id gen,
     1 + ddepth d1 <= MAX_DEPTH -> 1 + ddepth d2 <= MAX_DEPTH -> stream_eol eol ->
     forall s s2 s3 s4 s5 t t2 t3 t4 t5,
     Lexes s (IWord a :: IWord b :: IWord kw_obj :: IWord kw_dict_open :: body1 ++ [IWord kw_dict_close]) s2 ->
-    (forall s0, Lexes s0 (IWord kw_dict_open :: body1 ++ [IWord kw_dict_close]) s2 -> (length body1 + 2 <= fuel_for s0)%nat) ->
     next s2 = Ok (kw_stream, s3) -> lrest s3 = eol ++ data ++ rest ->
     next_expect (mkLx (lpos s3 + lenN eol + lenN data) rest) kw_endstream = Ok s4 -> next_expect s4 kw_endobj = Ok s5 ->
     Lexes t (IWord a :: IWord b :: IWord kw_obj :: IWord kw_dict_open :: body2 ++ [IWord kw_dict_close]) t2 ->
-    (forall s0, Lexes s0 (IWord kw_dict_open :: body2 ++ [IWord kw_dict_close]) t2 -> (length body2 + 2 <= fuel_for s0)%nat) ->
     next t2 = Ok (kw_stream, t3) -> lrest t3 = eol ++ data ++ rest ->
     next_expect (mkLx (lpos t3 + lenN eol + lenN data) rest) kw_endstream = Ok t4 -> next_expect t4 kw_endobj = Ok t5 ->
     exists st1 st2,
